@@ -1204,8 +1204,21 @@ class RawAlgorithmsMixIn:
 
         (xbar_data, ybar_data) = out
 
-        xbar_data += cls._dot(zbar_data, cls._transpose(y_data), out = xbar_data.copy())
-        ybar_data += cls._dot(cls._transpose(x_data), zbar_data, out = ybar_data.copy())
+        x_ndim, y_ndim = x_data.ndim - 2, y_data.ndim - 2
+
+        if x_ndim == 2 and y_ndim == 1:
+            # z = dot(matrix, vector): xbar = outer(zbar, y), ybar = dot(x.T, zbar)
+            xbar_data += cls._dot(zbar_data[..., numpy.newaxis], y_data[..., numpy.newaxis, :], out = xbar_data.copy())
+            ybar_data += cls._dot(cls._transpose(x_data), zbar_data, out = ybar_data.copy())
+
+        elif x_ndim == 1 and y_ndim == 2:
+            # z = dot(vector, matrix): xbar = dot(y, zbar), ybar = outer(x, zbar)
+            xbar_data += cls._dot(y_data, zbar_data, out = xbar_data.copy())
+            ybar_data += cls._dot(x_data[..., numpy.newaxis], zbar_data[..., numpy.newaxis, :], out = ybar_data.copy())
+
+        else:
+            xbar_data += cls._dot(zbar_data, cls._transpose(y_data), out = xbar_data.copy())
+            ybar_data += cls._dot(cls._transpose(x_data), zbar_data, out = ybar_data.copy())
 
         return out
 
